@@ -121,6 +121,7 @@ type Gen struct {
 	marks        map[string]int    // named positions in the prefix
 	ghostSorts   map[string]string
 	hoisted      map[ssa.Instruction]string
+	splitCase    int
 }
 
 func (g *Gen) ghostSortOf(name string) string {
@@ -730,6 +731,20 @@ func (g *Gen) run() {
 		t := g.specBool(env, c.E)
 		g.assumeRaw(t)
 		g.facts[c.Name] = t
+	}
+	// case split: exhaustiveness is checked once (in case 0), then the case is assumed
+	if len(g.ct.Split) > 0 && g.splitCase >= 0 {
+		env.goal = true
+		if g.splitCase == 0 {
+			var cases []string
+			for _, c := range g.ct.Split {
+				cases = append(cases, g.specBool(env, c.E))
+			}
+			g.obligeNamed(g.unit+"#split.exhaustive", "split", or(cases...), fn.Pos(), "the case split covers the precondition", nil)
+			g.lines = g.lines[:len(g.lines)-1]
+		}
+		env.goal = false
+		g.assumeRaw(g.specBool(env, g.ct.Split[g.splitCase].E))
 	}
 	// vacuity: the precondition must be satisfiable
 	cov := g.obligeNamed(g.unit+"#cover.pre", "cover", "false", fn.Pos(), "precondition is satisfiable", nil)
